@@ -208,6 +208,16 @@ def run(tier):
                              % (pt, key, type(got).__name__, "list" if want_list else "dict"), {"parent": pt, "key": key})
                 continue
             if want_list:
+                # an auto-created, still empty list says nothing: the text is that of the untouched object
+                try:
+                    t_empty = dumps(base)
+                    same = not project.diff(project.project(loads(t_empty)), project.project(loads("%s END" % pt.upper())))
+                except Exception as ex:  # noqa: BLE001
+                    same = False
+                if not same:
+                    ck.violation("C19|auto-create|%s<%s|empty-list-printed" % (ct, pt), "after reading %s[%r] (an empty list is auto-created) the object no longer prints / re-loads as before"
+                                 % (pt, key), {"parent": pt, "key": key})
+                    continue
                 try:
                     got.append(loads("%s END" % ct.upper()))
                     d_auto = loads(dumps(base))
